@@ -48,7 +48,9 @@ GEOMS = {
 KINDS = {
     "count_c2c": {"count": 5, "c2c_expansion": 1.2},
     "start_c2c": {"start_size": 0.08, "c2c_expansion": 1.15},
-    "end_c2c": {"end_size": 0.1, "c2c_expansion": 1.1},
+    # (an end size e with growth r towards the end can fill at most e r / (r - 1): 2.2 edge lengths here, so the
+    # chop stays realisable on the longest tapered / jittered edges of the alphabet)
+    "end_c2c": {"end_size": 0.2, "c2c_expansion": 1.1},
     "count_start": {"count": 6, "start_size": 0.07},
     "count_total": {"count": 5, "total_expansion": 3.0},
     "count_end": {"count": 4, "end_size": 0.12},
